@@ -202,19 +202,21 @@ def check_ladder(case):
     viol, nev, out, stats = [], 0, [], {"unresolved_finest": 0, "unresolved_pairs": 0}
     try:
         fp = FailureProbability(sm, ss)
-        buffers = {n: np.empty(n) for n in GRIDS}      # one grid buffer per size, refilled IN PLACE for every load level
-        for z0 in Z0S + Z0S_TAIL:
-            lm = math.log10(sm) + z0 * tot
-            e = _N01.cdf(z0)
-            errs, hs = [], []
-            for n in GRIDS:
-                x = buffers[n]
+        # one grid buffer per size, refilled IN PLACE for one load level after the other (consecutive calls on the same
+        # object with the very same array object, whose contents have changed)
+        P = {}
+        for n in GRIDS:
+            x = np.empty(n)
+            for z0 in Z0S + Z0S_TAIL:
+                lm = math.log10(sm) + z0 * tot
                 x[:] = np.linspace(lm - 8 * ls, lm + 8 * ls, n)
                 pdf = np.array([_normal_pdf(v, lm, ls) for v in x])
-                p = float(fp.pf_arbitrary_load(x, pdf))
+                P[(z0, n)] = float(fp.pf_arbitrary_load(x, pdf))
                 nev += 1
-                errs.append(abs(p - e))
-                hs.append(16 * ls / (n - 1))
+        for z0 in Z0S + Z0S_TAIL:
+            e = _N01.cdf(z0)
+            errs = [abs(P[(z0, n)] - e) for n in GRIDS]
+            hs = [16 * ls / (n - 1) for n in GRIDS]
             out.append(tuple(round(v, 12) for v in errs))
             for k in (0, 1):
                 if hs[k] <= ss:
